@@ -92,6 +92,16 @@ CLAIMS = {
         "note": "Trusted: cellwise model of boolean-mask load/store, LSODA stub.",
         "technique": "algebraic abstract interpretation with mask/select join + stub-driver wiring analysis",
     },
+    "C10": {
+        "level": "other",
+        "text": "voigt_averages is interpreted on abstract minerals with symbolic stiffnesses for all four assemblage orders; all 36 cells per "
+                "snapshot are shown identical to the independently written volume-weighted sum of rotated single-crystal tensors; symmetry, "
+                "order-independence (mineral list; simultaneous permutation of assemblage and fractions), the aligned-grain case and rejection "
+                "of inconsistent inputs are decided the same way. Texture-independent moduli and co-rotation follow from the tensor law (C11).",
+        "note": "Trusted: reference tensor law/Voigt map in the checker, NumPy semantics, uniformity in grain count (N=1 per mineral, two snapshots). "
+                "The wrong-phase stiffness lookup found by this check was repaired (fix: commit in /repo).",
+        "technique": "algebraic abstract interpretation with abstract records + normal-form identity against a reference",
+    },
     "C11": {
         "level": "proof",
         "text": "Every clause claimed is a polynomial identity over generic symbols, extracted from the source of pydrex.tensors by "
